@@ -11,6 +11,8 @@ META = {
 def run(ctx):
     import trancommon
     trancommon.exhaustive(ctx, "C03")
-    n = 6 if ctx.thorough() else 2
-    dbcommon.run_db(ctx, "tran", n, "C03")
+    # (a) op-level interleavings of 2-3 colliding transactions driven from one goroutine
+    dbcommon.run_db(ctx, "tranpairs", 12 if ctx.thorough() else 3, "C03p")
+    # (b) free-running concurrent clients against the real checker/merger/persist goroutines
+    dbcommon.run_db(ctx, "tran", 6 if ctx.thorough() else 1, "C03c")
     ctx.assumptions += dbcommon.ASSUME
